@@ -216,7 +216,7 @@ CHECKS["C06"] = dict(
           "lemmas: the from node is the row of the junction whose label equals the reference, invariant under any injective relabelling and "
           "equivariant under row permutations -- labels are used as array positions only."),
     note=(TB + "A4 (pandas index unique -- established by the create functions, C16 -- and non-negative; fancy stores with unique indices). BOUNDED, not "
-          "proved: _sum_by_group (numpy/numba, labels on both sides of the 1e5 switch, vectors <= 5) and the multi-section pipe code "
+          "proved: _sum_by_group (numpy/numba, labels on both sides of the 1e5 switch, vectors <= 4, thorough tier <= 6) and the multi-section pipe code "
           "(np.repeat / np.insert / argsort placement in Pipe.create_pit_*_entries and extract_branch_results_with_internals) by a whole-pipeline "
           "relabelling run on one network (216 cases). Labels >= 2^31 are outside the int32 lookups and not covered. 'Same results' follows from "
           "equal pits only together with determinism of the solver (C12)."),
